@@ -13,6 +13,8 @@ an exit passes B", enumeration of acyclic paths.
 import ast
 from collections import defaultdict
 
+from . import normalise as _norm
+
 from .srcmodel import Undecided, dotted, head
 
 # --------------------------------------------------------------------------------------
@@ -714,6 +716,18 @@ class Builder:
                 else:
                     out.append((h, 'false'))
             return out, abrupt
+        if _norm.is_block(st):
+            # sa.normalise: inlined helper body; ``__inline_return__K`` jumps to its end
+            lab = 'ijump:' + _norm.block_label(st)
+            n1, a1 = self._seq(st.body, preds, ctx)
+            out = list(n1)
+            abrupt = []
+            for a in a1:
+                if a.kind == lab:
+                    out += a.srcs
+                else:
+                    abrupt.append(a)
+            return out, abrupt
         if isinstance(st, (ast.With, ast.AsyncWith)):
             w = g._new('with', st, st, ctx.copy)
             self._connect(preds, w)
@@ -744,6 +758,8 @@ class Builder:
         # ---- simple statements
         n = g._new('stmt', st, st, ctx.copy)
         self._connect(preds, n)
+        if _norm.jump_label(st) is not None:
+            return [], [Abrupt('ijump:' + _norm.jump_label(st), [(n, 'next')])]
         if isinstance(st, ast.Return):
             ab = self._raises(n, st, ctx) if st.value is not None else []
             return [], ab + [Abrupt('return', [(n, 'next')])]
@@ -851,7 +867,8 @@ class Builder:
         groups = defaultdict(list)
         for a in abrupt:
             groups[a.kind].append(a)
-        for kind in ('exc', 'return', 'break', 'continue'):
+        for kind in ['exc', 'return', 'break', 'continue'] + sorted(
+                k for k in groups if k.startswith('ijump:')):
             if kind not in groups:
                 continue
             srcs = [s for a in groups[kind] for s in a.srcs]
